@@ -188,7 +188,7 @@ fn case<B: Fld, E: FieldElement<BaseField = B>, H: ElementHasher<BaseField = B>>
     let last_domain = domain / c.fold.pow(layers as u32);
     let rem_size = last_domain / c.blowup;
     let (f, fkind) = far_function::<B, E>(rng, n, domain);
-    let strategy = ["honest-folding", "remainder-after-queries", "remainder-plus-vanishing", "tampered-layer-value", "wrong-alpha", "omitted-layer", "swapped-layers", "wrong-degree-claim", "oversized-remainder", "claimed-evaluation-mismatch", "partitioned-layout"][(i % 11) as usize];
+    let strategy = ["honest-folding", "remainder-after-queries", "remainder-plus-vanishing", "tampered-layer-value", "wrong-alpha", "omitted-layer", "swapped-layers", "wrong-degree-claim", "oversized-remainder", "claimed-evaluation-mismatch", "partitioned-layout", "rows-made-up-after-the-queries"][(i % 12) as usize];
     let desc = |extra: &str| {
         J::obj(vec![("config", J::s(tag)), ("strategy", J::s(strategy)), ("function", J::s(&fkind)), ("blowup", J::i(c.blowup)), ("folding", J::i(c.fold)), ("remainder_max_degree", J::i(c.rem)), ("degree_bound", J::i(n - 1)), ("domain", J::i(domain)), ("queries", J::i(c.queries)), ("layers", J::i(layers)), ("detail", J::s(extra))])
     };
@@ -287,6 +287,39 @@ fn case<B: Fld, E: FieldElement<BaseField = B>, H: ElementHasher<BaseField = B>>
                 return;
             };
             verdict(st, "remainder substituted after the query positions were known", proof, inst.commitments, &f, &inst.positions, n - 1, None);
+        },
+        "rows-made-up-after-the-queries" => {
+            // the honest proof of a genuine low-degree polynomial, with the opened rows of the first
+            // layer rewritten after the positions are known so that they carry the far function's
+            // values at the queried positions and still fold to the same values: every algebraic check
+            // passes, only the Merkle opening of the first layer binds the rows. Sent with the
+            // partition field 0 (plain) or 16 (every leaf index collapses to 0)
+            if layers == 0 {
+                st.count("skipped.no_layers");
+                return;
+            }
+            let g = frih::evaluate::<B, E>(&rand_vec::<B, E>(rng, n), domain);
+            // few positions, so that every opened row keeps an unqueried entry
+            let mut pos: Vec<usize> = Vec::new();
+            for _ in 0..rng.range(2, 12) {
+                let p = rng.usize(domain);
+                let r = p % (domain / c.fold);
+                let in_row = pos.iter().filter(|q| *q % (domain / c.fold) == r).count();
+                if !pos.contains(&p) && in_row + 1 < c.fold {
+                    pos.push(p);
+                }
+            }
+            if pos.is_empty() || pos.iter().all(|&p| f[p] == g[p]) {
+                st.count("skipped.nothing_to_forge");
+                return;
+            }
+            let parts_byte = if rng.bool() { 0u8 } else { 16 };
+            let Some(m) = frih::forged_first_layer::<B, E, H>(&g, &f, &opts, &pos, parts_byte) else {
+                st.count("skipped.forgery_not_constructible");
+                return;
+            };
+            st.count(&format!("forged_rows.partition_byte_{parts_byte}"));
+            verdict(st, "first-layer rows rewritten after the queries were known", m.proof, m.commitments, &f, &pos, n - 1, None);
         },
         "partitioned-layout" => {
             // a hand-written prover that commits every layer in the layout with 2^k partitions (the
@@ -496,12 +529,12 @@ fn main() {
     drive::<B128, B128, Blake3_192<B128>>(&run, "f128/Blake3_192", n);
     drive::<B128, QuadExtension<B128>, Sha3_256<B128>>(&run, "f128^2/Sha3_256", n / 2);
     let mut require = Vec::new();
-    for s in ["honest-folding", "remainder-after-queries", "remainder-plus-vanishing", "tampered-layer-value", "wrong-alpha", "omitted-layer", "swapped-layers", "wrong-degree-claim", "oversized-remainder", "claimed-evaluation-mismatch", "partitioned-layout"] {
+    for s in ["honest-folding", "remainder-after-queries", "remainder-plus-vanishing", "tampered-layer-value", "wrong-alpha", "omitted-layer", "swapped-layers", "wrong-degree-claim", "oversized-remainder", "claimed-evaluation-mismatch", "partitioned-layout", "rows-made-up-after-the-queries"] {
         require.push((format!("rejected.{s}"), 20));
     }
     require.push(("oracle.recomputed_rejection_required".into(), 50));
     run.finish(Finish {
-        rule: "instances: blowup 2..32 x folding 2..16 x remainder max degree 0..31 x degree bounds 3..511, domain 16..4096, 100 queries (honest-folding acceptance probability <= max(1/blowup,3/4)^q <= 2^-40); functions: random, polynomial of degree bound+1, of degree in (bound+1..domain-1), of degree domain-1, low-degree corrupted on 1/4, 1/2, 3/4 of the domain; strategies (all commit honestly to each folded layer): honest folding, remainder interpolated through the queried points after seeing them, honest remainder + c*vanishing polynomial of the queried points, oversized remainder, one layer value tampered, folding with alpha+1 at one layer (also for genuine low-degree inputs; cases in which alpha+1 folds identically are not deviations and are skipped), a hand-written prover committing in the layout with 2/4/8 partitions (honest folding of the far function; a function unfolded from small polynomials with the coordinates of the rows' leaf indexes and folded with those coordinates), evaluations claimed to the verifier that differ from the committed first layer at queried positions sharing a coset with other queried positions (altered one first / middle / last in the list), a layer omitted / two layers swapped (with and without the matching commitment edit), too small a degree claim for a genuine polynomial. Expected: rejected or unparsable; an acceptance under honest folding is tolerated only if an independent recomputation (last layer refolded with the coin's challenges, remainder evaluated at every final position) shows all queried positions consistent. distinct = distinct generated instance".into(),
+        rule: "instances: blowup 2..32 x folding 2..16 x remainder max degree 0..31 x degree bounds 3..511, domain 16..4096, 100 queries (honest-folding acceptance probability <= max(1/blowup,3/4)^q <= 2^-40); functions: random, polynomial of degree bound+1, of degree in (bound+1..domain-1), of degree domain-1, low-degree corrupted on 1/4, 1/2, 3/4 of the domain; strategies (all commit honestly to each folded layer): honest folding, remainder interpolated through the queried points after seeing them, honest remainder + c*vanishing polynomial of the queried points, oversized remainder, one layer value tampered, folding with alpha+1 at one layer (also for genuine low-degree inputs; cases in which alpha+1 folds identically are not deviations and are skipped), first-layer rows rewritten after the positions are known (queried entries carry the far function, an unqueried entry of the row is adjusted so that the row folds to the same value; partition field 0 or 16), a hand-written prover committing in the layout with 2/4/8 partitions (honest folding of the far function; a function unfolded from small polynomials with the coordinates of the rows' leaf indexes and folded with those coordinates), evaluations claimed to the verifier that differ from the committed first layer at queried positions sharing a coset with other queried positions (altered one first / middle / last in the list), a layer omitted / two layers swapped (with and without the matching commitment edit), too small a degree claim for a genuine polynomial. Expected: rejected or unparsable; an acceptance under honest folding is tolerated only if an independent recomputation (last layer refolded with the coin's challenges, remainder evaluated at every final position) shows all queried positions consistent. distinct = distinct generated instance".into(),
         assumptions: vec![
             "finite strategy library: a clean run means none of these strategies was accepted, not soundness".into(),
             "evaluations of test polynomials use the library FFT (C09); refolding uses apply_drp (C15)".into(),
